@@ -9,11 +9,11 @@ class ScaledPhaseSpace:
     (s, m1, m2) -> Expr is allowed): two instances give two different functions with one qualified name."""
 
     def __init__(self, scale):
-        self.scale = scale
+        self.scale = scale   # exponent
 
     def rho(self, s, m1, m2):
         import ampform.dynamics as D
-        return self.scale * D.PhaseSpaceFactor(s, m1, m2)
+        return D.PhaseSpaceFactor(s, m1, m2) ** self.scale   # a power: does not cancel in rho(s)/rho(m0^2)
 
 
 def registry() -> dict[str, sp.Expr]:
